@@ -17,10 +17,14 @@ package main
 
 import (
 	"bytes"
+	"encoding/json"
 	"fmt"
 	"go/ast"
 	"go/printer"
 	"go/token"
+	"os"
+	"os/exec"
+	"path/filepath"
 	"regexp"
 	"sort"
 	"strings"
@@ -1421,175 +1425,78 @@ func cleanupAtomic() string {
 	return b.String()
 }
 
-// proxymiss: apricot/cacheproxy Service.GetDetectorsForHosts - what happens when a host is not in the
-// start-up snapshot (`det, ok := s.cache.detectorForHost[host]; if !ok {...}`):
+// proxymiss: apricot/cacheproxy Service - what the proxy ANSWERS for hosts that are not in its start-up
+// snapshot, observed by running the code of the repository under check (`h04 -proxyprobe`, built by the
+// driver next to this binary: the real cacheproxy.Service over an in-memory inventory that grows after the
+// snapshot; host lists of cached hosts, late hosts, both, unknown hosts, repeated look-ups):
 //
-//	0 the whole host list is handed to the backend and its answer returned
-//	1 the backend is asked for that host and the answer is what the loop goes on with (assigned to the loop's
-//	  variable, or added to the result inside the branch)
-//	2 the backend is asked for that host but the answer stays in a variable of the branch (`:=` shadows the
-//	  loop's variable): the loop goes on with the empty name
+//	0 every answer is the backend's, and on a miss the backend was asked about whole host lists
+//	1 every answer is the backend's, the backend was only asked about single hosts
+//	2 some answer differs from the backend's (e.g. the empty name for a late host)
+//
+// However GetDetectorsForHosts is written (loops, helpers, early returns, renamed locals) the table is the same.
 func proxyMiss() string {
-	p := ownPkg("apricot/cacheproxy")
-	fd := pkgMethod(p, "Service", "GetDetectorsForHosts")
-	if fd == nil {
-		die("proxymiss: func (s Service) GetDetectorsForHosts not found in apricot/cacheproxy")
+	self, err := os.Executable()
+	if err != nil {
+		die("proxymiss: cannot locate the translate binary: %v", err)
 	}
-	hostsParam := ""
-	if fd.Type.Params != nil && len(fd.Type.Params.List) == 1 && len(fd.Type.Params.List[0].Names) == 1 {
-		hostsParam = fd.Type.Params.List[0].Names[0].Name
+	bindir := filepath.Dir(self)
+	h04 := os.Getenv("VERIF_H04")
+	if h04 == "" {
+		h04 = filepath.Join(bindir, "h04")
 	}
-	var loop *ast.BlockStmt
-	hostVar := ""
-	ast.Inspect(fd.Body, func(n ast.Node) bool {
-		switch v := n.(type) {
-		case *ast.RangeStmt:
-			if id, ok := unparen(v.X).(*ast.Ident); ok && id.Name == hostsParam && loop == nil {
-				loop = v.Body
-				if id, ok := v.Value.(*ast.Ident); ok {
-					hostVar = id.Name
-				}
-			}
-		}
-		return loop == nil
-	})
-	if loop == nil || hostVar == "" {
-		die("proxymiss: GetDetectorsForHosts: the loop over the hosts was not found")
+	if _, err := os.Stat(h04); err != nil {
+		die("proxymiss: %s not built (%v)", h04, err)
 	}
-	// det, ok := <cache>[host]
-	detVar, okVar := "", ""
-	var miss []ast.Stmt
-	for si, st := range loop.List {
-		switch v := st.(type) {
-		case *ast.AssignStmt:
-			if len(v.Lhs) == 2 && len(v.Rhs) == 1 && detVar == "" {
-				if ix, ok := unparen(v.Rhs[0]).(*ast.IndexExpr); ok {
-					if id, ok := unparen(ix.Index).(*ast.Ident); ok && id.Name == hostVar {
-						d, ok1 := v.Lhs[0].(*ast.Ident)
-						o, ok2 := v.Lhs[1].(*ast.Ident)
-						if ok1 && ok2 {
-							detVar, okVar = d.Name, o.Name
-						}
-					}
-				}
-			}
-		case *ast.IfStmt:
-			if detVar == "" || miss != nil {
-				continue
-			}
-			if as, ok := v.Init.(*ast.AssignStmt); ok && len(as.Lhs) == 2 && len(as.Rhs) == 1 {
-				// `if det, ok := cache[host]; !ok` declares variables of the if statement only
-				die("proxymiss: GetDetectorsForHosts: the cache look-up is the init statement of an if")
-			}
-			c := unparen(v.Cond)
-			if u, ok := c.(*ast.UnaryExpr); ok && u.Op == token.NOT {
-				if id, ok := unparen(u.X).(*ast.Ident); ok && id.Name == okVar {
-					miss = v.Body.List
-				}
-			} else if id, ok := c.(*ast.Ident); ok && id.Name == okVar {
-				miss = elseStmts(v)
-				// `if ok { ...; continue }`: the miss is what follows in the loop
-				if n := len(v.Body.List); n > 0 {
-					if br, ok := v.Body.List[n-1].(*ast.BranchStmt); ok && br.Tok == token.CONTINUE {
-						miss = concat(miss, loop.List[si+1:])
-					}
-				}
-			} else if be, ok := c.(*ast.BinaryExpr); ok && be.Op == token.EQL {
-				if id, ok := unparen(be.X).(*ast.Ident); ok && id.Name == okVar {
-					if f, ok := unparen(be.Y).(*ast.Ident); ok && f.Name == "false" {
-						miss = v.Body.List
-					}
-				}
-			}
-		}
+	tmp, err := os.CreateTemp(bindir, "proxyprobe_*.json")
+	if err != nil {
+		die("proxymiss: %v", err)
 	}
-	if detVar == "" || miss == nil {
-		die("proxymiss: GetDetectorsForHosts: the cache look-up or its miss branch was not found")
+	tmp.Close()
+	defer os.Remove(tmp.Name())
+	if o, err := exec.Command(h04, "-proxyprobe", tmp.Name()).CombinedOutput(); err != nil {
+		os.Remove(tmp.Name())
+		die("proxymiss: h04 -proxyprobe failed: %v\n%s", err, o)
 	}
-	onBase := func(c *ast.CallExpr, method string) bool {
-		sel, ok := c.Fun.(*ast.SelectorExpr)
-		if !ok || sel.Sel.Name != method {
-			return false
-		}
-		inner, ok := unparen(sel.X).(*ast.SelectorExpr)
-		return ok && inner.Sel.Name == "base"
+	raw, err := os.ReadFile(tmp.Name())
+	if err != nil {
+		os.Remove(tmp.Name())
+		die("proxymiss: %v", err)
 	}
-	mode := -1
-	for _, st := range miss {
-		switch v := st.(type) {
-		case *ast.ReturnStmt:
-			if len(v.Results) >= 1 && mode < 0 {
-				if c, ok := unparen(v.Results[0]).(*ast.CallExpr); ok && onBase(c, "GetDetectorsForHosts") && len(c.Args) == 1 {
-					if id, ok := unparen(c.Args[0]).(*ast.Ident); ok && id.Name == hostsParam {
-						mode = 0
-					}
-				}
-			}
-		case *ast.AssignStmt:
-			if len(v.Rhs) != 1 || mode >= 0 {
-				continue
-			}
-			c, ok := unparen(v.Rhs[0]).(*ast.CallExpr)
-			if !ok || !onBase(c, "GetDetectorForHost") || len(c.Args) != 1 {
-				continue
-			}
-			if id, ok := unparen(c.Args[0]).(*ast.Ident); !ok || id.Name != hostVar {
-				die("proxymiss: GetDetectorsForHosts: the backend is asked about something other than the missing host")
-			}
-			target, ok := v.Lhs[0].(*ast.Ident)
-			if !ok {
-				die("proxymiss: GetDetectorsForHosts: the answer of the backend is not assigned to a variable")
-			}
-			switch {
-			case v.Tok == token.ASSIGN && target.Name == detVar:
-				mode = 1
-			default:
-				// a variable of the branch: the answer counts only if the branch itself adds it to the result
-				mode = 2
-				for _, later := range miss {
-					if as, ok := later.(*ast.AssignStmt); ok && later.Pos() > st.Pos() && len(as.Lhs) == 1 {
-						if ix, ok := as.Lhs[0].(*ast.IndexExpr); ok {
-							if id, ok := unparen(ix.Index).(*ast.Ident); ok && id.Name == target.Name {
-								mode = 1
-							}
-						}
-						if id, ok := as.Lhs[0].(*ast.Ident); ok && id.Name == detVar && as.Tok == token.ASSIGN && target.Name != detVar {
-							if r, ok := unparen(as.Rhs[0]).(*ast.Ident); ok && r.Name == target.Name {
-								mode = 1
-							}
-						}
-					}
-				}
-			}
-		}
+	var d struct {
+		Rows []struct {
+			Hosts   []string `json:"hosts"`
+			Proxy   []string `json:"proxy"`
+			Backend []string `json:"backend"`
+			Same    bool     `json:"same"`
+		} `json:"rows"`
+		AllSame   bool   `json:"all_same"`
+		ListCalls int    `json:"backend_list_calls"`
+		HostCalls int    `json:"backend_host_calls"`
+		Err       string `json:"err"`
 	}
-	if mode < 0 {
-		die("proxymiss: GetDetectorsForHosts: what the miss branch does was not understood")
+	if err := json.Unmarshal(raw, &d); err != nil {
+		os.Remove(tmp.Name())
+		die("proxymiss: %v", err)
 	}
-	// the loop goes on with the loop's variable: <result>[det] = ...
-	uses := false
-	ast.Inspect(loop, func(n ast.Node) bool {
-		if as, ok := n.(*ast.AssignStmt); ok && len(as.Lhs) == 1 && len(as.Rhs) == 1 {
-			if ix, ok := as.Lhs[0].(*ast.IndexExpr); ok {
-				if id, ok := unparen(ix.Index).(*ast.Ident); ok && id.Name == detVar {
-					uses = true
-				}
-			}
-			if c, ok := unparen(as.Rhs[0]).(*ast.CallExpr); ok {
-				if f, ok := c.Fun.(*ast.Ident); ok && f.Name == "append" && len(c.Args) == 2 {
-					if id, ok := unparen(c.Args[1]).(*ast.Ident); ok && id.Name == detVar {
-						uses = true
-					}
-				}
-			}
-		}
-		return true
-	})
-	if !uses {
-		die("proxymiss: GetDetectorsForHosts: the loop does not add the detector it looked up to the result")
+	if len(d.Rows) < 10 && d.Err == "" {
+		die("proxymiss: the probe table has only %d rows", len(d.Rows))
+	}
+	mode := 2
+	switch {
+	case d.AllSame && d.Err == "" && d.ListCalls > 0:
+		mode = 0
+	case d.AllSame && d.Err == "":
+		mode = 1
 	}
 	var b strings.Builder
-	b.WriteString("(* regenerated on every run by harness/cmd/translate (proxymiss) from apricot/cacheproxy Service.GetDetectorsForHosts:\n   on a cache miss 0 the whole host list goes to the backend, 1 the backend's answer for that host is used,\n   2 the backend's answer for that host does not reach the result *)\n")
+	b.WriteString("(* regenerated on every run by harness/cmd/translate (proxymiss) from a run of apricot/cacheproxy.Service over an\n   inventory that grows after the proxy's snapshot (h04 -proxyprobe): on a cache miss 0 the whole host list goes to\n   the backend, 1 the backend's answer for that host is used, 2 some answer is not the backend's")
+	for _, r := range d.Rows {
+		if !r.Same {
+			fmt.Fprintf(&b, "\n   hosts %v: proxy %q, backend %q", r.Hosts, r.Proxy, r.Backend)
+		}
+	}
+	b.WriteString(" *)\n")
 	fmt.Fprintf(&b, "Definition proxy_miss : nat := %d.\n", mode)
 	return b.String()
 }
